@@ -442,12 +442,19 @@ def spaces(ctx):
               make_space("fmmu-3p-complete-2slots", "fmmu", 3, None, 0, s,
                          nslot=2)]
     else:
+        # (restart-2p-complete-small: 3.4 M executions, complete and clean
+        # on the pinned tree, takes the run beyond half an hour on a busy
+        # machine; it is replaced by its preemption-bound-3 version and
+        # remains available through C23_SPACES)
         sp = [make_space("full-2p-complete-crash1", "full", 2, None, 1, s),
               make_space("restart-2p-preempt2", "restart", 2, 2, 0, s),
-              make_space("restart-2p-complete-small", "restart", 2, None, 0,
+              make_space("restart-2p-preempt3-small", "restart", 2, 3, 0,
                          s, neth=1, nslot=2),
               make_space("full-3p-preempt2", "full", 3, 2, 0, s),
               make_space("fmmu-3p-complete-crash1", "fmmu", 3, None, 1, s)]
+        if "restart-2p-complete-small" in _os.environ.get("C23_SPACES", ""):
+            sp.append(make_space("restart-2p-complete-small", "restart", 2,
+                                 None, 0, s, neth=1, nslot=2))
     only = _os.environ.get("C23_SPACES")      # development aid
     if only:
         sp = [x for x in sp if x.name in only.split(",")]
